@@ -19,7 +19,7 @@ def run_F1(ctx, case):
         def one(fk):
             it2 = Interp(mod); it2.fork = fk; fk['pc'].append(z3.ULT(start, 1000)); calls2 = []
             it2.hooks['_ZN7randomx15initDatasetItemEP13randomx_cachePhm'] = lambda s, a: calls2.append(a) and None
-            it2.mem.alloc(64, 'cache'); it2.mem.mkarr('dataset', P.DATASET_BASE + P.DATASET_EXTRA)
+            it2.mem.alloc(64, 'cache'); it2.mem.share('cache'); it2.mem.mkarr('dataset', P.DATASET_BASE + P.DATASET_EXTRA)
             it2.call(mod.find('_ZN7randomx11initDatasetEP13randomx_cachePhjj'), [Ptr('cache', 0), Ptr('dataset', 4096), start, start + 3])
             ok = len(calls2) == 3; q.n += 1; q.unsat += ok; q.sat += (not ok)
             if not ok: q.failed.append(('initDataset(start, start+3) computed %d items' % len(calls2), {})); return
